@@ -67,7 +67,7 @@ theorem bracket_of_est2 {F p eb} (lay : Layout F p eb) (cl ch : Nat) (hcl : 4 * 
     (h : Est2 F p est cl ch num den) :
     extendedToFloat F (round F est roundDown) ≤ roundNE F.fmt num den ∧
       roundNE F.fmt num den ≤ extendedToFloat F (round F est roundDown) + 1 := by
-  obtain ⟨hm1, hm2, _, _, hlo, hhi⟩ := h
+  obtain ⟨hm1, hm2, hlo, hhi⟩ := h
   have hf := lay.wf
   have hp := lay.hp; have hp64 := lay.hp64; have heb := lay.heb
   have hfp : F.fmt.p = p := by rw [lay.fmt]
